@@ -480,8 +480,34 @@ func (c *Ctx) c17BuiltinNamed() {
 	}
 }
 
+// c17NilInitialiser: a package variable declared WITH the initialiser nil is re-initialised by a reload like any other
+// initialised variable (var x T = nil is not var x T, which is kept)
+func (c *Ctx) c17NilInitialiser() {
+	src := "package main\n\ntype Node struct {\n\tv int\n}\n\nvar head *Node = nil\n\nvar trail []int = nil\n\nvar index map[string]int = nil\n\nvar onPush func() int = nil\n\nvar kept *Node\n\nvar count = 0\n\n" +
+		"func Push() int {\n\thead = &Node{v: 1}\n\tkept = head\n\ttrail = append(trail, 1)\n\tindex = map[string]int{\"a\": 1}\n\tonPush = func() int { return 1 }\n\tcount++\n\treturn len(trail)\n}\n\n" +
+		"func State() []bool {\n\treturn []bool{head == nil, trail == nil, index == nil, onPush == nil, kept == nil, count == 0}\n}\n"
+	sys := fstest.MapFS{"main/main.go": &fstest.MapFile{Data: []byte(src)}}
+	vm := goat.New()
+	for step, q := range []struct{ call, want string }{{"load", "ok"}, {"State", "ok [true true true true true true]"}, {"Push", "ok 1"}, {"Push", "ok 2"}, {"State", "ok [false false false false false false]"},
+		{"load", "ok"}, {"State", "ok [true true true true false true]"}, {"Push", "ok 1"}, {"load", "ok"}, {"State", "ok [true true true true false true]"}} {
+		var rets []goat.Value
+		var err error
+		if q.call == "load" {
+			err = vm.Load(sys, "main")
+		} else {
+			rets, err = vm.Call("main."+q.call, 1)
+		}
+		c.Rep.Oracle["nil-initialiser"]++
+		if got := c19Show(rets, err); got != q.want {
+			c.Rep.Violate(Violation{Kind: "oracle", Cut: "nil-initialiser", Input: fmt.Sprintf("step %d (%s) of load, State, Push, Push, State, load, State, Push, load, State over:\n%s", step, q.call, src), Impl: got, Oracle: q.want})
+			return
+		}
+	}
+}
+
 func runC17(c *Ctx) error {
 	c.c17LiveReload()
+	c.c17NilInitialiser()
 	c.c17BuiltinNamed()
 	c.c17KeptContainers()
 	c.c17TypeGainsFields()
